@@ -342,6 +342,11 @@ Fixpoint runs_ok (start_consistent : bool) (prev_done : option config) (rs : lis
       | None => true
       end &&
       runs_ok start_consistent (if r_err r then None else Some c) rest
+    | c1 :: (_ :: _) as l, false =>
+      (* several configured databases (the harness keeps them behind one connection): every one of them was rotated, in
+         order, so the tables carry the configuration of the last one *)
+      (r_err r || negb start_consistent || applied_b (last l c1) (obs_db r)) &&
+      runs_ok start_consistent None rest
     | _, _ => runs_ok start_consistent None rest
     end
   end.
